@@ -375,6 +375,13 @@ def replay(prop, case, ctx):
         out.update(schema=real, serialized=j, fails=not ok)
     else:
         ver = case["version"]
+        if case.get("sides"):
+            from apischema.json_schema import definitions_schema
+            kw = {"deserialization": [tp]} if case["sides"] == "deserialization" else {"deserialization": [tp], "serialization": [tp]}
+            ds = dict(definitions_schema(version=getattr(JsonSchemaVersion, ver), all_refs=True, additional_properties=case["ap"], **kw))
+            bad = keywords({"definitions": ds}) & VOCAB_BY_VERSION[ver]
+            if ver == "OPEN_API_3_0" and [x for x in all_types(ds) if not isinstance(x, str)]: bad = bad | {"type-list"}
+            out.update(definitions=ds, vocabulary_violations=sorted(bad), fails=bool(bad)); return out
         real = deserialization_schema(tp, additional_properties=case["ap"], with_schema=False, version=getattr(JsonSchemaVersion, ver))
         base = deserialization_schema(tp, additional_properties=case["ap"], with_schema=False)
         bad = keywords(real) & VOCAB_BY_VERSION[ver]
